@@ -315,9 +315,17 @@ def run_job(job):
         rebound = set()
         n_obl = 0
         default_strength = case.get("strength", contract.strength)
+        job_budget = contract.job_budget_s[tier] if hasattr(contract, "job_budget_s") else {"quick": 150.0, "thorough": 900.0}[tier]
+        refuted_names = set()
         for pi, p in enumerate(paths):
             S, inp, out = p.value
             rebound |= p.ghost.get("_rebound", set())
+            if time.time() - t_start > job_budget:
+                res["budget_exhausted"] = True
+                if res["status"] == "ok" and not res["violations"]:
+                    res["status"] = "undecided"
+                    res["error"] = f"job wall budget of {job_budget:.0f}s exhausted after {pi} of {len(paths)} paths"
+                break
             res["nonzero_assumptions"] += len(p.nonzero)
             post = PostCtx(p.pc)
             sym.CUR = post
@@ -354,14 +362,34 @@ def run_job(job):
                 psolver.add(h)
             # reachability / vacuity / canary in one query: the path (with the spec's side
             # conditions) must be satisfiable, i.e. `False` must not be provable from it
-            r = psolver.check()
+            path_model = None
+            r = _quick_reach(S, hyps, rng)
+            if r is not None:
+                # a concrete assignment satisfies every hypothesis: turn it into a z3 model cheaply
+                ps2 = z3.Solver()
+                ps2.set("timeout", 5000)
+                for h in hyps:
+                    ps2.add(h)
+                for n_, v_ in r.items():
+                    sy = S.symbols.get(n_)
+                    if type(sy) is SymReal:
+                        ps2.add(sy.t == z3.RealVal(Fraction(v_).limit_denominator(10**6)))
+                if ps2.check() == z3.sat:
+                    path_model = ps2.model()
+                r = z3.sat
+            else:
+                psolver.set("timeout", 8000)
+                r = psolver.check()
+                psolver.set("timeout", int(timeout * 1000))
+                if r == z3.sat:
+                    path_model = psolver.model()
             res["reach_checked"] += 1
             if r == z3.unsat:
                 res["status"] = "crash"
                 res["error"] = f"path {pi} of {contract.name}[{cid}] has contradictory hypotheses (vacuous; canary proved)"
                 return res
-            path_model = psolver.model() if r == z3.sat else None
             res["canaries_refuted"] += 1 if r == z3.sat else 0
+            res["reach_unknown"] = res.get("reach_unknown", 0) + (1 if r == z3.unknown else 0)
             if not obligations:
                 res["status"] = "crash"
                 res["error"] = f"no obligation generated on path {pi} of {contract.name}[{cid}]"
@@ -374,6 +402,11 @@ def run_job(job):
                     strength = default_strength
                 n_obl += 1
                 full = f"{contract.prop}.{contract.name}.{oname}"
+                if full in refuted_names or (res["violations"] and time.time() - t_start > job_budget / 3):
+                    # already refuted in this job (or the job is failing and has used a third of its budget):
+                    # further instances are not re-decided, they are reported as skipped
+                    res["obligations"].append({"name": full, "case": cid, "path": pi, "status": "skipped", "backend": "-", "time_s": 0.0, "strength": strength, "reason": "job already has a refuted obligation"})
+                    continue
                 if isinstance(cond, (bool, np.bool_)):
                     if cond:
                         v = Verdict(full, "proved", "z3-simplify", 0.0)
@@ -403,6 +436,7 @@ def run_job(job):
                 if v.smt2 and len(res["samples"]) < 2 and v.status == "proved":
                     res["samples"].append({"obligation": f"{full}[{cid}]@path{pi}", "verdict": f"unsat ({v.backend})", "smt2": v.smt2[:3000]})
                 if v.status == "refuted":
+                    refuted_names.add(full)
                     viol = _handle_refuted(contract, case, cid, S, p, pi, hyps, ct if not isinstance(cond, (bool, np.bool_)) else None, v, oname, full, rng, timeout)
                     entry["replay"] = viol
                     res["violations"].append(viol)
@@ -468,6 +502,24 @@ def _native_fallback(contract, case, res, rng, tries=6):
             return
 
 
+def _quick_reach(S, hyps, rng, tries=12):
+    """Try random concrete assignments of the symbols against all hypotheses (numeric evaluation)."""
+    names = [n for n, s_ in S.symbols.items() if type(s_) is SymReal]
+    bools = [n for n, s_ in S.symbols.items() if type(s_) is SymBool]
+    if len(names) > 400:
+        return None
+    for k in range(tries):
+        lo, hi = ((0.1, 3.0) if k % 2 == 0 else (-3.0, 3.0))
+        env = {n: round(rng.uniform(lo, hi), 3) for n in names}
+        env.update({n: rng.random() < 0.5 for n in bools})
+        try:
+            if all(eval_term(h, env) for h in hyps):
+                return {n: env[n] for n in names}
+        except Exception:
+            return None
+    return None
+
+
 def _discharge_with_model(name, hyps, goal, timeout, axioms, want_smt2=False, psolver=None, _depth=0):
     """Decide hyps ∧ axioms ⇒ goal.  z3 incrementally on the path solver, then a fresh z3, then cvc5."""
     t0 = time.time()
@@ -476,6 +528,14 @@ def _discharge_with_model(name, hyps, goal, timeout, axioms, want_smt2=False, ps
         return Verdict(name, "proved", "z3-simplify", time.time() - t0)
     smt2 = None
     is_conj = z3.is_and(goal) and goal.num_args() > 1 and _depth < 2
+    from .explore import _has_div, prove_rational_identity
+
+    if _depth == 0 and _has_div(goal):
+        try:
+            if prove_rational_identity(goal):
+                return Verdict(name, "proved", "z3-simplify", time.time() - t0, reason="rational identity after clearing denominators")
+        except Exception:
+            pass
     if psolver is not None and not want_smt2:
         psolver.push()
         try:
